@@ -59,8 +59,7 @@ def sig(fl):
     maxur = [r for r in ("cpu", "mem") if inp["pol"][r] == "maxUsageRequest"]
     nomet = any(hp(p) and p["phase"] in ("Running", "Pending") and not p["metric"] and any(p["req"][r] > 0 for r in maxur)
                 for p in inp["pods"])
-    return "op=%s maxUsageRequest=%s hp_pod_without_metric_under_maxUsageRequest=%s zones=%d" % (
-        op, ",".join(maxur) or "-", nomet, len(inp.get("zones", [])))
+    return "op=%s kind=%s" % (op, "hp-pod-without-metric-under-maxUsageRequest" if nomet else "other")
 
 
 CONF = {
